@@ -1,5 +1,7 @@
 import Gbo.Proofs.FillQueue
 import Gbo.Proofs.Divide
+import Gbo.Proofs.Links
+import Gbo.Proofs.SweepInv
 /-
   C13 — the sweep yields a planar subdivision.  Proved here, for ALL inputs: the queue-filling clause
   (`fill_queue` creates exactly one mutually linked pair per non-degenerate input edge, the left event
@@ -114,5 +116,26 @@ example :
      | .ok st' => st'.arena.size == 4 && st'.arena[0]!.other == some 2 && st'.arena[3]!.other == some 1
      | .error _ => false) = true := by
   decide +kernel
+
+/-- **Every sub-segment is a mutually linked event pair — as an invariant.**  The arena `fill_queue` builds is
+    mutually linked (`e.other.other = e`, partner different from `e` and present), and `possible_intersection`
+    — every branch: crossing, the four collinear-overlap cases, all return codes — keeps it so, for every
+    arithmetic.  (`compute_fields` and the sweep-line operations do not touch `other`.) -/
+theorem C13_links_initial (a b : MPoly) (op : Op) : MutualLinks (fillQueue a b op).fq.arena :=
+  mutualLinks_of_paired _ (C13_fillQueue a b op).1
+
+theorem C13_links_preserved (ar : Arith) (cfg : Cfg) (st st' : SwSt) (se1 se2 r : Nat)
+    (h : possibleIntersection ar cfg st se1 se2 = .ok (r, st')) (hl : MutualLinks st.arena) :
+    MutualLinks st'.arena :=
+  possibleIntersection_links ar cfg st st' se1 se2 r h hl
+
+/-- **After the whole sweep, for every input and every arithmetic:** whenever `subdivide` returns, every event
+    that has a partner is linked back by that partner (a different, existing event) — "every sub-segment is
+    a mutually linked left/right event pair" as a theorem about the complete loop (insertion and removal
+    branches, neighbour checks, recomputations after return code 2, all branches of `possible_intersection`,
+    `divide_segment` with its bump and its left/right swap). -/
+theorem C13_subdivide_links (ar : Arith) (cfg : Cfg) (a b : MPoly) (op : Op) (sb cb : BBox) (sw : SweepOut)
+    (h : subdivide ar cfg (fillQueue a b op).fq sb cb op = .ok sw) : MutualLinks sw.arena :=
+  subdivide_preserves mutualLinks_stable ar cfg _ sb cb op sw h (C13_links_initial a b op)
 
 end Gbo.Props
